@@ -217,6 +217,7 @@ def calib(p, problem, processor):
         algo_kw.update(nlopt_solver="neldermead", maxeval=20)
     algorithm = Algorithm(**algo_kw)
     ModelFittingDataTree.fitness = wrapped
+    pr.GLOBAL = []
     try:
         pg.set_global_rng_seed(seed=seed)
         islands = int(p.get("islands", 1))
@@ -228,14 +229,46 @@ def calib(p, problem, processor):
         dt = archi.run_evolve(readout=problem.readout, num_rows=2, num_cols=2,
                               num_evolutions=int(p.get("evolutions", 2)),
                               num_best_decisions=p.get("num_best", 3))
+        load_simulated(dt)
     finally:
         ModelFittingDataTree.fitness = orig
+        final, pr.GLOBAL = pr.GLOBAL, None
 
-    return collect(p, problem, log, dt)
+    return collect(p, problem, log, dt, final)
 
 
-def collect(p, problem, log, dt):
-    """Probes of one calibration run: every logged evaluation, every champion and best individual."""
+def load_simulated(dt):
+    """The simulated outputs of the result are lazy: loading one runs the pipeline once per island with the last
+    champions' parameters (that run is what C10 observes).  In the unchanged tree the load itself then fails
+    (`_apply_parameters` asks for with_inherited_coords=True, `extract_data_3d` reads data_tree["pixel"]): that
+    is not a statement of C10, so the error is ignored here; the probe models have run by then."""
+    try:
+        _ = dt["/simulated/pixel"].to_numpy()
+    except Exception:  # noqa: BLE001
+        pass
+
+
+def final_runs(final):
+    """Pipeline runs outside fitness: per thread the records come as (model 0, model 1) of one run."""
+    by_thread = {}
+    for tid, rec in final or []:
+        by_thread.setdefault(tid, []).append(rec)
+    runs = []
+    for recs in by_thread.values():
+        cur = {}
+        for rec in recs:
+            if any(k in cur for k in rec):
+                runs.append(cur)
+                cur = {}
+            cur.update(rec)
+        if cur:
+            runs.append(cur)
+    return runs
+
+
+def collect(p, problem, log, dt, final=None):
+    """Probes of one calibration run: every logged evaluation, every champion and best individual, and the
+    final application of the last champions' parameters (whose simulated outputs the result reports)."""
 
     def conv_of(x):
         try:
@@ -269,6 +302,29 @@ def collect(p, problem, log, dt):
     reported("champion", "champion")
     if "best" in dt.children:
         reported("best", "best")
+
+    if final is not None:
+        # /simulated/* of the result come from run_evolve applying the LAST champions' reported parameters: one
+        # pipeline run per island (one processor).  Every such run that was observed must have received exactly
+        # the parameters reported for some island.  (Loading stops at the first error, see load_simulated: an
+        # island whose run was not observed is not judged.)
+        runs = [ordered(p, r) for r in final_runs(final)]
+        dec = dt["/champion/decision"].isel(evolution=-1).to_numpy().astype(float)
+        par = dt["/champion/parameters"].isel(evolution=-1).to_numpy().astype(float)
+        dec, par = dec.reshape(-1, dec.shape[-1]), par.reshape(-1, par.shape[-1])
+        nvar = len(p["vars"])
+        wants = []
+        for qv in par:
+            want, a = [], 0
+            for v in p["vars"]:
+                b = 1 if v["n"] is None else v["n"]
+                want.append(_hx(qv[a:a + b]))
+                a += b
+            wants.append(want)
+        for r in runs:
+            got = [e[2] for e in r[:nvar]]
+            k = next((k for k, w in enumerate(wants) if w == got), 0)     # no island reports it: judged against island 0
+            probes.append(dict(tag="final", x=_hx(dec[k]), x_after=_hx(dec[k]), conv=_hx(par[k]), applied=r, error=None))
     return probes
 
 
@@ -434,11 +490,15 @@ def calib2(p):
             n_before = len(built)
             st = dict(op="build")
             dt, err = None, None
+            pr.GLOBAL = []
             try:
                 dt = calibration.run_calibration(processor=processor, output_dir=None, with_inherited_coords=False,
                                                  with_progress_bar=False)
+                load_simulated(dt)
             except Exception as ex:  # noqa: BLE001
                 err = f"{type(ex).__name__}: {str(ex)[:200]}"
+            finally:
+                final, pr.GLOBAL = pr.GLOBAL, None
             new = built[n_before:]
             if len(new) != 1:
                 if err is not None:
@@ -456,7 +516,7 @@ def calib2(p):
             steps.append(st)
             if err is not None:
                 return {"calib_error": f"run {k}: {err}", "steps": steps}
-            for pbe in collect(p, pb, list(log), dt):
+            for pbe in collect(p, pb, list(log), dt, final):
                 steps.append(dict(op="fitness", pid=len(problems) - 1, snap=snap, **pbe))
     finally:
         ModelFittingDataTree.fitness, ModelFittingDataTree.__init__ = orig_fit, orig_init
